@@ -34,6 +34,7 @@ func c07Kinds() []struct {
 		{"minInclusive", M("minInclusive", 1)}, {"maxInclusive", M("maxInclusive", 5)}, {"minExclusive", M("minExclusive", 1.5)}, {"maxExclusive", M("maxExclusive", 10)},
 		{"lessThanProperty", M("lessThanProperty", "ex.q")}, {"lessThanOrEqualsToProperty", M("lessThanOrEqualsToProperty", "ex.q")},
 		{"equalsToProperty", M("equalsToProperty", "ex.q")}, {"disjointWithProperty", M("disjointWithProperty", "ex.q")},
+		{"pattern-backtick", M("pattern", "^a`b$")}, {"pattern-quotes", M("pattern", "^\"a'b\"$")}, {"pattern-backslash", M("pattern", `^\d+\\x$`)}, {"pattern-dollar-message", M("pattern", "^$message$")},
 		{"all-counts-together", M("minCount", 1, "maxCount", 3, "minLength", 1, "maxLength", 9, "pattern", "a", "in", strs("a"))},
 	}
 }
